@@ -57,6 +57,18 @@ func (lc listConstruct) String() string {
 	return s
 }
 
+// buildFunc applies the ...Func variant of the construct with the given callback.
+func (lc listConstruct) buildFunc(cb func(g *jen.Group)) *jen.Statement {
+	st := &jen.Statement{}
+	m := reflect.ValueOf(st).MethodByName(lc.name + "Func")
+	var args []reflect.Value
+	if lc.custom >= 0 {
+		args = append(args, reflect.ValueOf(c13Options[lc.custom]))
+	}
+	m.Call(append(args, reflect.ValueOf(cb)))
+	return st
+}
+
 // build applies the construct to a fresh statement.
 func (lc listConstruct) build(items []jen.Code) *jen.Statement {
 	st := &jen.Statement{}
@@ -333,7 +345,7 @@ func runC13(r *ev.Recorder) {
 		"also arities 8, 17, 40, 130 with one null item at every slot and with null items at all slots, and arities 260, 520, ..., 4160 with null items at all slots / first / middle / last (real and total item counts straddle every size up to 4160). (b) Empty(): at every position of every arity 1..%d; oracle: raw bytes equal those with an identifier in its place after deleting the identifier. "+
 		"(c) re-render: a placeholder item (Null() or a token-less &Statement{}; bare, or inside List/Union/Add/Custom/Types) that is null at the first render and real at the second, and vice versa; each render must equal a freshly built list. "+
 		"(d) one argument slice with nil entries spread into two constructs (every ordered pair of constructs x every nil placement): both render as if built privately, twice, and the caller's slice is unchanged. "+
-		"(e) program level: real programs of the corpus, translated into the DSL with null items injected at every list-construct site under 3 uniform policies, must re-parse to the same syntax tree. distinct_nontrivial = distinct (construct, item list) cases with at least one injected/Empty/placeholder item", len(c13Constructs), cn, maxArity, len(c13Nulls), nn, dev, maxArity)
+		"(f) every ordered pair of ...Func constructs built with g.Null() placeholders: filling the first one's placeholder afterwards changes only the first. (e) program level: real programs of the corpus, translated into the DSL with null items injected at every list-construct site under 3 uniform policies, must re-parse to the same syntax tree. distinct_nontrivial = distinct (construct, item list) cases with at least one injected/Empty/placeholder item", len(c13Constructs), cn, maxArity, len(c13Nulls), nn, dev, maxArity)
 	r.Assume = []string{"an empty Types() used as a list item, and Dict{}, are not in the property's list of vanishing items and are not injected", "program level: every 12th corpus file in the quick tier, every file in the thorough tier"}
 
 	for ci, lc := range c13Constructs {
@@ -441,6 +453,40 @@ func runC13(r *ev.Recorder) {
 						r.Violate(ev.Violation{Signature: "c13:rerender:" + c13Wraps[wi].name, What: d + ": " + msg.String(),
 							Case: ev.JSON(c13Case{Kind: "rerender", Construct: ci, Wrap: wi, Pos: map[bool]int{true: 1, false: 0}[nullFirst] + 2*phKind, Desc: d}), Detail: msg.String()})
 					}
+				}
+			}
+		}
+		// (f) null placeholders made with the Group form g.Null() inside two independent ...Func
+		// constructs; one of them is filled in afterwards - the other list must not notice
+		if lc.fn {
+			for cj, lb := range c13Constructs {
+				if !lb.fn {
+					continue
+				}
+				r.Eval(1)
+				d := fmt.Sprintf("%s and %s built with g.Null() placeholders, the first one's placeholder filled afterwards", lc, lb)
+				r.Distinct(d)
+				msg := jh.Catch(func() (string, error) {
+					var ph *jen.Statement
+					a := lc.buildFunc(func(g *jen.Group) { g.Add(c13Real(0)); ph = g.Null(); g.Add(c13Real(1)) })
+					b := lb.buildFunc(func(g *jen.Group) { g.Add(c13Real(0)); g.Null(); g.Add(c13Real(1)) })
+					wantB := c13RenderStmt(lb.build(c13Plain(2))).Key()
+					if got := c13RenderStmt(b).Key(); got != wantB {
+						return fmt.Sprintf("second list renders %q before anything was filled in, want %q", got, wantB), nil
+					}
+					ph.Id("late")
+					wantA := c13RenderStmt(lc.build([]jen.Code{c13Real(0), jen.Id("late"), c13Real(1)})).Key()
+					if got := c13RenderStmt(a).Key(); got != wantA {
+						return fmt.Sprintf("first list renders %q after its placeholder was filled, want %q", got, wantA), nil
+					}
+					if got := c13RenderStmt(b).Key(); got != wantB {
+						return fmt.Sprintf("second list renders %q after the FIRST list's placeholder was filled, want %q", got, wantB), nil
+					}
+					return "", nil
+				})
+				if msg.String() != "" {
+					r.Violate(ev.Violation{Signature: "c13:group-null-placeholder:" + problemKind(msg.String()), What: d + ": " + msg.String(),
+						Case: ev.JSON(c13Case{Kind: "groupnull", Construct: ci, Second: cj, Desc: d}), Detail: msg.String()})
 				}
 			}
 		}
